@@ -404,6 +404,31 @@ func (j *totalJudge) oneRound() {
 		_, _ = fmt.Sscanf(z.S, "%5"+string(verb), &d)
 	})
 	// --- text out
+	// ownership of returned slices: overwrite what a producer returned, call it again,
+	// and require the same bytes as before (a producer must not hand out library storage)
+	{
+		own := func(op string, f func() []byte) {
+			j.do(op, 0, func() {
+				a := f()
+				want := string(a)
+				for i := range a {
+					a[i] = 0xEE
+				}
+				b := f()
+				if string(b) != want {
+					j.fail(op, "output-aliased", "a returned slice is the caller's: overwriting it must not change later results ("+clipS(want, 40)+")", clipS(string(b), 40))
+				}
+				j.sh.Cell("returned-slice-overwritten/" + op)
+			})
+		}
+		own("Decimal.MarshalText", func() []byte { b, _ := x.MarshalText(); return b })
+		own("Decimal.MarshalJSON", func() []byte { b, _ := x.MarshalJSON(); return b })
+		own("Decimal.MarshalBinary", func() []byte { b, _ := x.MarshalBinary(); return b })
+		own("Append", func() []byte { return decimal128.Append(nil, x, "efgEG"[int(z.X.Lo%5)], z.P%40-1) })
+		own("Decimal.Append", func() []byte { return x.Append(nil, "efgvEG"[int(z.Y.Lo%6):][:1]) })
+		own("Decimal.Append", func() []byte { return x.Append(nil, "+4g") })
+		own("Decimal.Decompose", func() []byte { _, _, c, _ := x.Decompose(nil); return c })
+	}
 	j.do("Decimal.String", 0, func() { j.keepString("Decimal.String", x.String()) })
 	j.do("Decimal.MarshalText", 0, func() { b, _ := x.MarshalText(); j.keepBytes("Decimal.MarshalText", b) })
 	j.do("Decimal.MarshalJSON", 0, func() { b, _ := x.MarshalJSON(); j.keepBytes("Decimal.MarshalJSON", b) })
